@@ -88,6 +88,12 @@ func cmdCheck(args []string) int {
 
 	var groups []*groupRun
 	var allJobs []*jobState
+	type reachReq struct {
+		js       JobSpec
+		gr       *groupRun
+		from, to int
+	}
+	var mustReach []reachReq
 	for gi, g := range spec.Groups {
 		gr := &groupRun{spec: g, tmp: filepath.Join(tmp, fmt.Sprintf("g%d", gi))}
 		os.MkdirAll(gr.tmp, 0o755)
@@ -139,6 +145,9 @@ func cmdCheck(args []string) int {
 				return 2
 			}
 			sweep := expandSweep(js)
+			jobStart := len(gr.jobs)
+			defer func(js JobSpec, gr *groupRun, from int) {}(js, gr, jobStart)
+			mustReach = append(mustReach, reachReq{js: js, gr: gr, from: jobStart, to: jobStart + len(sweep)})
 			for pi, p := range sweep {
 				first := pi == len(sweep)-1
 				cfg := mkConfig(js, p, *tier)
@@ -228,6 +237,19 @@ func cmdCheck(args []string) int {
 		}
 	}
 
+	for _, rr := range mustReach {
+		for _, lbl := range rr.js.MustReach {
+			ok := false
+			for _, j := range rr.gr.jobs[rr.from:rr.to] {
+				if j.reaches[lbl] {
+					ok = true
+				}
+			}
+			if !ok {
+				engineFail = append(engineFail, fmt.Sprintf("vacuity: no instance of %s reached witness label %s", rr.js.Entry, lbl))
+			}
+		}
+	}
 	// ---- canaries: each falsified twin must yield a violation that reproduces natively ----
 	var batch = map[*groupRun][]replayItem{}
 	type pend struct {
